@@ -975,6 +975,39 @@ def configured_requirements(ctx: Ctx, env: EnvA):
                construct=f"{env.name}._reset:configured:{cell}")
 
 
+def instance_sized_state(ctx: Ctx, env: EnvA, rule_id: str = "C01.x", keys=("action_mask", "available", "visited", "to_deliver")):
+    """C01.x the per-node state of a freshly reset instance (mask, availability / visited / to-deliver flags) has one entry
+    per node OF THAT INSTANCE: the size tuples of its constructors are taken from the incoming TensorDict's tensors, not from
+    `self.generator.<size>`.  One env object is routinely reset with instances of another size (generalisation tests, dataset
+    files); with configuration-sized cells a larger instance silently ends after `generator.num_loc` nodes."""
+    from .. import symshape
+    rs = env.slot("_reset")
+    if rs is None or rs.td is None:
+        return
+    for key in keys:
+        v = rs.td.cells.get(key)
+        if v is None:
+            continue
+        gen, n_ctor = set(), 0
+        for n in vg.walk(v):
+            if nf._fn(n) in symshape.CTORS:
+                n_ctor += 1
+                for it_ in symshape.SymShape._size_items(n) or []:
+                    if isinstance(it_, vg.S):
+                        for a in vg.walk(it_):
+                            if a.op == "selfattr" and str(a.args[0]).startswith("generator."):
+                                gen.add("self." + a.args[0])
+                            elif a.op == "attr" and isinstance(a.args[0], vg.S) and a.args[0].op == "selfattr" and a.args[0].args[0] == "generator":
+                                gen.add("self.generator." + a.args[1])
+        if not n_ctor:
+            continue
+        ctx.ob(rule_id, f"{env.name}._reset:{key}:sized-from-the-instance", not gen, rs.where,
+               f"{key} is built with sizes taken from the instance" if not gen else
+               f"{key} is built with {sorted(gen)}: an instance of another size than the env's generator is configured for gets a mask / flag vector of the wrong width "
+               "(a larger instance silently ends after that many nodes, a smaller one indexes out of range)",
+               construct=f"{env.name}._reset:{key}:sized-from:" + ",".join(sorted(gen)))
+
+
 def svrp_last_technician(ctx: Ctx, env: EnvA, sl, root):
     """C01.s SVRP: the depot is closed while customers remain if the vehicle is at the depot OR the current technician is the
     last one (index n_tech - 1, n_tech = techs.size(-2)): returning would advance `current_tech` past the last technician."""
@@ -1027,6 +1060,7 @@ def run(ctx: Ctx):
         mdcpdp_mask_classes(ctx, env)
         clock_update(ctx, env)
         configured_requirements(ctx, env)
+        instance_sized_state(ctx, env)
         if cname == "SVRPEnv":
             svrp_last_technician(ctx, env, sl, root)
         if cname == "MTVRPEnv":
